@@ -148,8 +148,15 @@ def generate(rng, tier):
     frames = rng.choice([1, 1, 1, 2, 3, 4])
     m = rng.randint(2, hi)
     n = m if rng.random() < 0.4 else rng.randint(2, hi)
-    if rng.random() < 0.5:
+    c = rng.random()
+    if c < 0.5:
         m, n = 2 * ((m + 1) // 2), 2 * ((n + 1) // 2)      # even shapes feed the Bayer stage
+    elif c < 0.6:
+        m = 1                                               # line sensors: 1xN, Nx1, 1x1
+    elif c < 0.7:
+        n = 1
+    elif c < 0.72:
+        m = n = 1
     prnu = dcnu = None
     if not exact and rng.random() < 0.3:
         prnu = {"seed": rng.getrandbits(32), "spread": rng.choice([0.0, 0.02, 0.3])}
@@ -170,6 +177,20 @@ def generate(rng, tier):
         # the same image once more on the same Detector object, same draws: a
         # detector that keeps state between exposures shows up here
         ops.insert(rng.randint(1, len(ops)), {"op": "again"})
+    if rng.random() < 0.35:
+        # reconfigure the (possibly shared) detector, then expose again: the new frame
+        # must follow the new settings, whatever the object remembered
+        what = rng.choice(["t", "dark", "gain", "bias", "fwc", "dcnu", "prnu", "bits", "frames"])
+        val = {"t": rng.choice([0.0, 0.5, 2.0, 3.0]), "dark": rng.choice([0.0, 5.0, 40.0]),
+               "gain": rng.choice([0.5, 2.0, gain * 3]), "bias": float(rng.choice([0, 50, 500])),
+               "fwc": fwc * rng.choice([0.25, 4.0]), "dcnu": {"seed": rng.getrandbits(32), "spread": 0.6},
+               "prnu": None if exact else {"seed": rng.getrandbits(32), "spread": 0.4},
+               "bits": rng.choice(_BITS), "frames": rng.choice([1, 2, 3])}[what]
+        ops.append({"op": "reconf", "set": {what: val}})
+        ops.append({"op": "expose"})
+        if rng.random() < 0.6:
+            ops.append({"op": "brighter", "seed": rng.getrandbits(32),
+                        "kind": rng.choice(["uniform", "sparse", "cross", "huge"])})
     for _ in range(rng.randint(0, 3)):
         c = rng.random()
         if c < 0.5:
@@ -236,23 +257,31 @@ def execute(plan):
     sim = SimRandom(np, mode, cfg["rng_seed"])
     mathops.np._srcmodule = BackendProxy(np, random=sim)
 
-    d = plan["det"]
+    d = dict(plan["det"])          # live configuration: "reconf" ops change it
     img = build_img(np, plan["img"])
     m, n = img.shape
-    bits = d["bits"]
-    cap = 2 ** bits - 1
-    prnu = dcnu = None
-    if d["prnu"]:
-        g = np.random.Generator(np.random.PCG64(d["prnu"]["seed"]))
-        prnu = 1.0 + d["prnu"]["spread"] * (g.random((m, n)) - 0.5)
-    if d["dcnu"]:
-        g = np.random.Generator(np.random.PCG64(d["dcnu"]["seed"]))
-        dcnu = 1.0 + d["dcnu"]["spread"] * (g.random((m, n)) - 0.5)
+
+    class S:                       # values derived from the live configuration
+        pass
+
+    def refresh():
+        S.bits = d["bits"]
+        S.cap = 2 ** S.bits - 1
+        S.prnu = S.dcnu = None
+        if d["prnu"]:
+            g = np.random.Generator(np.random.PCG64(d["prnu"]["seed"]))
+            S.prnu = 1.0 + d["prnu"]["spread"] * (g.random((m, n)) - 0.5)
+        if d["dcnu"]:
+            g = np.random.Generator(np.random.PCG64(d["dcnu"]["seed"]))
+            S.dcnu = 1.0 + d["dcnu"]["spread"] * (g.random((m, n)) - 0.5)
+
+    refresh()
 
     def make_det():
         return D.Detector(dark_current=d["dark"], read_noise=d["read_noise"], bias=d["bias"], fwc=d["fwc"],
-                          conversion_gain=d["gain"], bits=bits, exposure_time=d["t"],
-                          prnu=None if prnu is None else prnu.copy(), dcnu=None if dcnu is None else dcnu.copy())
+                          conversion_gain=d["gain"], bits=S.bits, exposure_time=d["t"],
+                          prnu=None if S.prnu is None else S.prnu.copy(),
+                          dcnu=None if S.dcnu is None else S.dcnu.copy())
 
     events, violations = [], []
     faults, probes = {}, {}
@@ -275,27 +304,33 @@ def execute(plan):
     def ideal(image):
         e = image * d["t"]
         dk = d["dark"] * d["t"]
-        if dcnu is not None:
-            dk = dk * dcnu
+        if S.dcnu is not None:
+            dk = dk * S.dcnu
         e = e + dk
-        if prnu is not None:
-            e = e * prnu
+        if S.prnu is not None:
+            e = e * S.prnu
         x = np.minimum(e + d["bias"], d["fwc"])
         return x / d["gain"]
 
-    pre = ideal(img)
-    if np.any(pre >= cap + 1):
-        bump(faults, "saturate_adc")
-    if np.any(img * d["t"] + d["bias"] > d["fwc"]):
-        bump(faults, "saturate_fwc")
-    if d["t"] == 0:
-        bump(faults, "zero_exposure")
-    if prnu is not None or dcnu is not None:
-        bump(faults, "nonuniform_maps")
-    for lvl, nm in ((cap, "c_eq_cap"), (cap + 1, "c_eq_cap_plus_1"), (cap + 2, "c_eq_cap_plus_2")):
-        if np.any(np.floor(pre) == lvl):
-            bump(probes, nm)
-    bump(probes, f"bits_{bits}" if bits in (1, 8, 16, 32) else "bits_other")
+    def note_regime():
+        pre = ideal(img)
+        S.pre = pre
+        if np.any(pre >= S.cap + 1):
+            bump(faults, "saturate_adc")
+        if np.any(img * d["t"] + d["bias"] > d["fwc"]):
+            bump(faults, "saturate_fwc")
+        if d["t"] == 0:
+            bump(faults, "zero_exposure")
+        if S.prnu is not None or S.dcnu is not None:
+            bump(faults, "nonuniform_maps")
+        for lvl, nm in ((S.cap, "c_eq_cap"), (S.cap + 1, "c_eq_cap_plus_1"), (S.cap + 2, "c_eq_cap_plus_2")):
+            if np.any(np.floor(pre) == lvl):
+                bump(probes, nm)
+        bump(probes, f"bits_{S.bits}" if S.bits in (1, 8, 16, 32) else "bits_other")
+        if 1 in img.shape:
+            bump(probes, "line_sensor_image")
+
+    note_regime()
 
     shared = {"det": None}
     seam_lost = {"v": False}
@@ -321,10 +356,10 @@ def execute(plan):
             viol("dn-dtype", stage, dtype=str(dn.dtype))
             return False
         lo, hi = int(dn.min()), int(dn.max())
-        if lo < 0 or hi > cap:
-            viol("dn-range", stage, min=lo, max=hi, cap=cap, bits=bits)
-        if mode == "off" and sim.total_calls > 0 and not (prnu is not None and d["dark"] != 0):
-            c = np.clip(ideal(image), 0, cap)
+        if lo < 0 or hi > S.cap:
+            viol("dn-range", stage, min=lo, max=hi, cap=S.cap, bits=S.bits)
+        if mode == "off" and sim.total_calls > 0 and not (S.prnu is not None and d["dark"] != 0):
+            c = np.clip(ideal(image), 0, S.cap)
             c = np.broadcast_to(c, dn.shape)
             dnf = dn.astype(np.float64)
             err = np.abs(dnf - c)
@@ -339,10 +374,10 @@ def execute(plan):
                 j = int(np.argmax(err))
                 viol("dn-exact", stage, got=float(dnf.ravel()[j]), want=float(c.ravel()[j]))
             raw = np.broadcast_to(ideal(image), dn.shape)
-            sat = raw >= cap + 1
-            if bool(np.any(sat & (dnf != cap))):
-                j = int(np.argmax(sat & (dnf != cap)))
-                viol("dn-saturated", stage, got=float(dnf.ravel()[j]), want=float(cap))
+            sat = raw >= S.cap + 1
+            if bool(np.any(sat & (dnf != S.cap))):
+                j = int(np.argmax(sat & (dnf != S.cap)))
+                viol("dn-saturated", stage, got=float(dnf.ravel()[j]), want=float(S.cap))
             neg = raw <= -1
             if bool(np.any(neg & (dnf != 0))):
                 viol("dn-exact", stage, note="negative pre-ADC signal must read 0")
@@ -350,16 +385,42 @@ def execute(plan):
 
     dn1 = None
     frame_f = None
+    reconfigured = False
+    ATTR = {"t": "exposure_time", "dark": "dark_current", "gain": "conversion_gain", "bias": "bias", "fwc": "fwc",
+            "bits": "bits"}
     for i, op in enumerate(plan["ops"]):
         k = op["op"]
         ev = {"i": i, "op": k}
-        if k == "expose":
+        if k == "reconf":
+            for key, val in op["set"].items():
+                d[key] = val
+            refresh()
+            det = shared["det"]
+            if det is not None:
+                # the user changes public attributes of the existing Detector object
+                for key in op["set"]:
+                    if key in ATTR:
+                        setattr(det, ATTR[key], d[key])
+                    elif key == "dcnu":
+                        det.dcnu = None if S.dcnu is None else S.dcnu.copy()
+                    elif key == "prnu":
+                        det.prnu = None if S.prnu is None else S.prnu.copy()
+                bump(faults, "detector_reconfigured_in_place")
+            else:
+                bump(faults, "detector_reconfigured_fresh")
+            note_regime()
+            dn1 = None
+            frame_f = None
+            reconfigured = True
+            ev["out"] = "ok"
+            ev["set"] = sorted(op["set"])
+        elif k == "expose":
             try:
                 dn1 = expose(img, False)
             except Exception as e:
                 ev["out"] = "raised:" + type(e).__name__
                 viol("raised", "expose", exc=type(e).__name__, msg=str(e)[:160],
-                     prnu=prnu is not None, dcnu=dcnu is not None)
+                     prnu=S.prnu is not None, dcnu=S.dcnu is not None)
                 dn1 = None
                 events.append(ev)
                 continue
@@ -434,7 +495,7 @@ def execute(plan):
                 if bool(np.any(a2 < a1)):
                     j = int(np.argmax(a2 < a1))
                     viol("dn-monotone", "brighter", darker=int(a2.ravel()[j]), was=int(a1.ravel()[j]),
-                         cap=cap, bits=bits)
+                         cap=S.cap, bits=S.bits)
                 bump(probes, "monotone_pairs_compared")
         elif k == "bin":
             if frame_f is None:
@@ -468,8 +529,9 @@ def execute(plan):
         else:
             raise RuntimeError(f"unknown op {k}")
         events.append(ev)
-        regime = "adc" if np.any(pre >= cap) else ("fwc" if np.any(img * d["t"] + d["bias"] > d["fwc"]) else "lin")
-        trans.add(f"{'b8' if bits <= 8 else 'b16' if bits <= 16 else 'b32'}|{mode}|{regime}|{k}|{ev.get('out', '')[:10]}")
+        regime = "adc" if np.any(S.pre >= S.cap) else ("fwc" if np.any(img * d["t"] + d["bias"] > d["fwc"]) else "lin")
+        trans.add(f"{'b8' if S.bits <= 8 else 'b16' if S.bits <= 16 else 'b32'}|{mode}|{regime}|{k}|{ev.get('out', '')[:10]}"
+                  f"|{'reconf' if reconfigured else ''}")
 
     if mode == "tails":
         bump(faults, "rng_tail_high", sim.tail_hi)
@@ -593,15 +655,28 @@ def _bayer(np, B, mos, cfa, viol, bump, probes):
                 for nm in names:
                     if not np.array_equal(_site(mal[..., ch], S[nm]), _site(mf, S[nm])):
                         viol("bayer-native-sites", "malvar", plane=nm, cfa=cfa)
-            comp = np.asarray(B.composite_bayer(mal[..., 0].copy(), mal[..., 1].copy(), mal[..., 1].copy(),
-                                                mal[..., 2].copy(), cfa))
-            if not np.array_equal(comp, mf):
-                viol("bayer-native-sites", "composite", cfa=cfa)
-            buf = np.full_like(mf, -1.0)
-            comp2 = B.composite_bayer(mal[..., 0].copy(), mal[..., 1].copy(), mal[..., 1].copy(),
-                                      mal[..., 2].copy(), cfa, output=buf)
-            if not (np.array_equal(np.asarray(comp2), mf) and np.array_equal(buf, mf)):
-                viol("bayer-native-sites", "composite-output-arg", cfa=cfa)
+            # composite four *different* full-resolution planes: every site must take the
+            # sample of its own plane (r, g1 = top-right green, g2 = bottom-left green, b)
+            gq = np.random.Generator(np.random.PCG64(int(mf.size) * 7919 + (0 if cfa == "rggb" else 1)))
+            planes = {nm: (mf + gq.integers(1, 1000, mf.shape).astype(np.float64) * (j + 1))
+                      for j, nm in enumerate(("r", "g1", "g2", "b"))}
+            for variant in ("return", "output-arg"):
+                if variant == "return":
+                    comp = np.asarray(B.composite_bayer(planes["r"].copy(), planes["g1"].copy(), planes["g2"].copy(),
+                                                        planes["b"].copy(), cfa))
+                else:
+                    comp = np.full_like(mf, -1.0)
+                    ret = B.composite_bayer(planes["r"].copy(), planes["g1"].copy(), planes["g2"].copy(),
+                                            planes["b"].copy(), cfa, output=comp)
+                    if not np.array_equal(np.asarray(ret), comp):
+                        viol("bayer-native-sites", "composite-output-arg", cfa=cfa, note="return differs from output=")
+                if comp.shape != mf.shape:
+                    viol("bayer-native-sites", "composite", note="shape", cfa=cfa)
+                    break
+                for nm in ("r", "g1", "g2", "b"):
+                    if not np.array_equal(_site(comp, S[nm]), _site(planes[nm], S[nm])):
+                        viol("bayer-native-sites", "composite" if variant == "return" else "composite-output-arg",
+                             plane=nm, cfa=cfa)
         bump(probes, f"bayer_{cfa}")
     except Exception as e:
         viol("raised", "bayer", exc=type(e).__name__, msg=str(e)[:160], cfa=cfa)
